@@ -16,7 +16,7 @@ func init() { RegisterProp("C14", runC14) }
 
 func isExcludedField(f reflect.StructField) bool {
 	if f.Anonymous && f.Type.Kind() == reflect.Struct {
-		return f.Tag.Get("parquet") == "-"
+		return f.Tag.Get("parquet") == "-" || !f.IsExported()
 	}
 	if !f.IsExported() {
 		return true
